@@ -77,6 +77,11 @@ def _policy(rng, with_default):
     # attributes whose value is null in the target compare equal to None
     rules['svc:nulls'] = 'None:%(target.user.id)s or None:%(project_id)s'
     rules['svc:notnull'] = 'role:member and not None:%(project_id)s'
+    # references to a name defined nowhere (with a default rule: decided by
+    # it; without: deny) -- in every generated file, not left to chance
+    rules['svc:dangling'] = 'rule:undefined'
+    rules['svc:notdangling'] = 'not rule:undefined'
+    rules['svc:dangling-or'] = 'role:reader or rule:undefined'
     # names whose order differs between comparing the names and comparing
     # their colon-separated components (characters sorting below ':'),
     # upper case, several colons
